@@ -9,6 +9,7 @@ package tor
 // torrent must be gone completely.
 
 import (
+	"runtime"
 	"context"
 	"errors"
 	"fmt"
@@ -98,6 +99,7 @@ func lifeOps() map[string]lifeOp {
 	})
 	add("ReaderRead", func(s *lifeScenario) string {
 		r := s.t.NewReader(s.ctx, 0, s.t.Pieces.Length())
+		runtime.SetFinalizer(r, nil)
 		_, err := r.Read(make([]byte, 100))
 		r.Close()
 		return e(err)
@@ -179,6 +181,7 @@ func runLife(t *testing.T, cfg lifeCfg) (out lifeOutcome) {
 		var readerDone chan error
 		if cfg.Reader {
 			s.reader = tor.NewReader(ctx, int64(g.PSize), 100) // piece 1: never arrives
+			runtime.SetFinalizer(s.reader, nil)
 			readerDone = make(chan error, 1)
 			go func() {
 				_, err := s.reader.Read(make([]byte, 10))
